@@ -59,6 +59,9 @@ pub enum Kind {
     AlreadyExists,
     PermissionDenied,
     Other,
+    /// A connection-level failure, as remote transports report them (not one of the four
+    /// kinds of the statements' quantifiers; used only for faults during races).
+    Connect,
 }
 
 impl Kind {
@@ -69,6 +72,7 @@ impl Kind {
             Kind::AlreadyExists => ErrorKind::AlreadyExists,
             Kind::PermissionDenied => ErrorKind::PermissionDenied,
             Kind::Other => ErrorKind::Other,
+            Kind::Connect => ErrorKind::Connect,
         }
     }
 }
